@@ -141,20 +141,35 @@ theorem exact_shr {T : TruthTable} (a b : Val F) (r : Res F) (hs : Spec.Ops.eval
 
 
 
+/-- what the documentation says about an ordering is what the helper answers -/
+theorem order_compare {T : TruthTable} (hT : wf T = true) (hF : FloatOrder P) (a b : Val F) (p : Bool × Bool)
+    (h : Spec.Ops.order P a b = some p) :
+    ∃ o, looseCompare P T a b = some o ∧ o.isLt = p.1 ∧ o.isLe = p.2 := by
+  unfold Spec.Ops.order at h
+  split at h
+  · rename_i x y hc
+    rw [conv_compare P hT hF a b x y hc]
+    exact (base_compare P hT hF x y).1 p h
+  · cases h
+
+theorem looseEq_compare {T : TruthTable} (hT : wf T = true) (hF : FloatOrder P) (a b : Val F) (e : Bool)
+    (h : Spec.Ops.looseEq P a b = some e) :
+    ∃ o, looseCompare P T a b = some o ∧ o.isEq = e := by
+  unfold Spec.Ops.looseEq at h
+  split at h
+  · rename_i x y hc
+    rw [conv_compare P hT hF a b x y hc]
+    exact (base_compare P hT hF x y).2 e h
+  · cases h
+
 theorem exact_eqne {T : TruthTable} (hT : wf T = true) (hF : FloatOrder P) (a b : Val F) (r : Res F) :
     (Spec.Ops.eval P .eq a b = some r → eval P T .eq false a b = r) ∧
     (Spec.Ops.eval P .ne a b = some r → eval P T .ne false a b = r) := by
-  have ha := wf_asBool P hT a
-  have hb := wf_asBool P hT b
-  have hf := fun x y => (ordFloat_tests P hF x y).2.2.1
-  have hi := fun x y => (ord3_tests (BitVec.slt x y) (BitVec.slt y x) (slt_asymm' x y)).2.2.1
-  have hs := fun x y => (ord3_tests (strLt x y) (strLt y x) (strLt_asymm x y)).2.2.1
-  refine ⟨?_, ?_⟩ <;> intro hs' <;> cases a <;> cases b <;>
-    simp [Spec.Ops.eval, Spec.Ops.looseEq, Spec.Ops.toF, Spec.Ops.mkBool] at hs' <;>
-    subst hs' <;>
-    simp [eval, eqv, nev, viaCompare, looseCompare, isNullOrBool, ha, hb, Spec.Ops.truthy, bne, hf,
-      ordInt_eq, ordStr_eq, hi, hs, int_eq_test, str_eq_test, ordBool_eq_test] <;>
-    (try rfl)
+  refine ⟨?_, ?_⟩ <;> intro hs <;>
+    simp only [Spec.Ops.eval, Option.map_eq_some_iff] at hs <;>
+    obtain ⟨e, he, hr⟩ := hs <;> subst hr <;>
+    obtain ⟨o, ho, hoe⟩ := looseEq_compare P hT hF a b e he <;>
+    simp [eval, eqv, nev, viaCompare, ho, hoe, Spec.Ops.mkBool]
 
 theorem exact_strict {T : TruthTable} (a b : Val F) (r : Res F) :
     (Spec.Ops.eval P .seq a b = some r → eval P T .seq false a b = r) ∧
@@ -164,30 +179,43 @@ theorem exact_strict {T : TruthTable} (a b : Val F) (r : Res F) :
     subst hs <;>
     simp [eval, seq, sne, strictEq]
 
-theorem exact_rel {T : TruthTable} (hF : FloatOrder P) (a b : Val F) (r : Res F) :
+theorem exact_rel {T : TruthTable} (hT : wf T = true) (hF : FloatOrder P) (a b : Val F) (r : Res F) :
     (Spec.Ops.eval P .lt a b = some r → eval P T .lt false a b = r) ∧
     (Spec.Ops.eval P .le a b = some r → eval P T .le false a b = r) ∧
     (Spec.Ops.eval P .gt a b = some r → eval P T .gt false a b = r) ∧
     (Spec.Ops.eval P .ge a b = some r → eval P T .ge false a b = r) := by
-  have hf := fun x y => ordFloat_tests P hF x y
-  have hi := fun x y => ord3_tests (BitVec.slt x y) (BitVec.slt y x) (slt_asymm' x y)
-  have hs := fun x y => ord3_tests (strLt x y) (strLt y x) (strLt_asymm x y)
-  refine ⟨?_, ?_, ?_, ?_⟩ <;> intro hs' <;> cases a <;> cases b <;>
-    simp [Spec.Ops.eval, Spec.Ops.order, Spec.Ops.toF, Spec.Ops.mkBool] at hs' <;>
-    subst hs' <;>
-    simp [eval, lt, le, gt, ge, viaCompare, looseCompare, ordInt_eq, ordStr_eq, hf, hi, hs,
-      int_lt_test, int_le_test]
+  have hrev := looseCompare_rev (T := T) P hF.eq_symm hF.lt_asymm b a
+  refine ⟨?_, ?_, ?_, ?_⟩ <;> intro hs <;>
+    simp only [Spec.Ops.eval, Option.map_eq_some_iff] at hs <;>
+    obtain ⟨p, hp, hr⟩ := hs <;> subst hr
+  · obtain ⟨o, ho, h1, _⟩ := order_compare P hT hF a b p hp
+    simp [eval, lt, viaCompare, ho, h1, Spec.Ops.mkBool]
+  · obtain ⟨o, ho, _, h2⟩ := order_compare P hT hF a b p hp
+    simp [eval, le, viaCompare, ho, h2, Spec.Ops.mkBool]
+  · obtain ⟨o, ho, h1, _⟩ := order_compare P hT hF b a p hp
+    rw [ho] at hrev
+    simp [eval, gt, viaCompare, hrev, (Ord4.rev_tests' o).1, h1, Spec.Ops.mkBool]
+  · obtain ⟨o, ho, _, h2⟩ := order_compare P hT hF b a p hp
+    rw [ho] at hrev
+    simp [eval, ge, viaCompare, hrev, (Ord4.rev_tests' o).2, h2, Spec.Ops.mkBool]
 
-theorem exact_cmp {T : TruthTable} (hF : FloatOrder P) (a b : Val F) (r : Res F)
+theorem exact_cmp {T : TruthTable} (hT : wf T = true) (hF : FloatOrder P) (a b : Val F) (r : Res F)
     (hs : Spec.Ops.eval P .cmp a b = some r) : eval P T .cmp false a b = r := by
-  have hf := fun x y => (ordFloat_tests P hF x y).2.2.2.2.2
-  have hi := fun x y => (ord3_tests (BitVec.slt x y) (BitVec.slt y x) (slt_asymm' x y)).2.2.2.2.2
-  have hs3 := fun x y => (ord3_tests (strLt x y) (strLt y x) (strLt_asymm x y)).2.2.2.2.2
-  cases a <;> cases b <;>
-    simp [Spec.Ops.eval, Spec.Ops.spaceship, Spec.Ops.order, Spec.Ops.toF] at hs <;>
-    subst hs <;>
-    simp [eval, cmp, looseCompare, ordInt_eq, ordStr_eq, hf, hi, hs3, Spec.Ops.wrap] <;>
-    (try simp [BitVec.slt_eq_decide])
+  have hrev := looseCompare_rev (T := T) P hF.eq_symm hF.lt_asymm b a
+  simp only [Spec.Ops.eval, Spec.Ops.spaceship] at hs
+  split at hs
+  · rename_i l _ g _ h1 h2
+    obtain ⟨o, ho, hl, _⟩ := order_compare P hT hF a b _ h1
+    obtain ⟨o', ho', hg, _⟩ := order_compare P hT hF b a _ h2
+    rw [ho'] at hrev
+    rw [ho] at hrev
+    simp only [Option.map_some, Option.some.injEq] at hrev
+    cases hs
+    simp only [eval, cmp, ho, Ord4.toInt_tests, hl]
+    have : o.isGt = g := by
+      rw [hrev, (Ord4.rev_tests' o').1, hg]
+    simp [this, Spec.Ops.wrap]
+  · cases hs
 
 theorem exact_logic {T : TruthTable} (hT : wf T = true) (a b : Val F) (r : Res F) :
     (Spec.Ops.eval P .land a b = some r → eval P T .land false a b = r) ∧
@@ -240,11 +268,11 @@ theorem exact_bin {T : TruthTable} (hT : wf T = true) (hF : FloatOrder P)
   · exact (exact_eqne P hT hF a b r).2 hs
   · exact (exact_strict P a b r).1 hs
   · exact (exact_strict P a b r).2 hs
-  · exact (exact_rel P hF a b r).1 hs
-  · exact (exact_rel P hF a b r).2.1 hs
-  · exact (exact_rel P hF a b r).2.2.1 hs
-  · exact (exact_rel P hF a b r).2.2.2 hs
-  · exact exact_cmp P hF a b r hs
+  · exact (exact_rel P hT hF a b r).1 hs
+  · exact (exact_rel P hT hF a b r).2.1 hs
+  · exact (exact_rel P hT hF a b r).2.2.1 hs
+  · exact (exact_rel P hT hF a b r).2.2.2 hs
+  · exact exact_cmp P hT hF a b r hs
   · exact (exact_logic P hT a b r).1 hs
   · exact (exact_logic P hT a b r).2 hs
   · exact exact_dot P a b r hs
